@@ -358,7 +358,7 @@ impl Case for WakeCase {
                 if self.mode == "sqpoll" {
                     // the kernel thread consumes the submissions (wake messages are
                     // delivered to the target ring at once)
-                    let msgs: Vec<(i32, u64, u32)> = simk::with_ring(self.rfd, |r, ev| {
+                    let msgs: Vec<(i32, u64, u32, u64)> = simk::with_ring(self.rfd, |r, ev| {
                         let n = r.sq_pending();
                         r.consume(n, ev);
                         let mut v = Vec::new();
@@ -366,15 +366,18 @@ impl Case for WakeCase {
                         while i < r.inflight.len() {
                             if r.inflight[i].sqe.opcode == simk::OP_MSG_RING {
                                 let s = r.inflight.remove(i).sqe;
-                                v.push((s.fd, s.off, s.len));
+                                v.push((s.fd, s.off, s.len, s.user_data));
                             } else {
                                 i += 1;
                             }
                         }
                         v
                     });
-                    for (tfd, ud, len) in msgs {
+                    for (tfd, ud, len, own) in msgs {
+                        // the message on the target ring, then the MSG_RING submission's own
+                        // completion on the source ring (KC7)
                         simk::with_ring(tfd, |r, ev| r.post_raw(None, Cqe { user_data: ud, res: len as i32, flags: 0 }, ev));
+                        simk::with_ring(self.rfd, |r, ev| r.post_raw(None, Cqe { user_data: own, res: 0, flags: 0 }, ev));
                     }
                 }
                 format!("k {}", self.state())
